@@ -125,9 +125,9 @@ def _key(j: int) -> list:
 
 
 @st.composite
-def many_vars_recipe(draw):
+def many_vars_recipe(draw, max_nv=180):
     mode = "app"
-    nv = draw(st.sampled_from([1, 2, 3, 5, 8, 20, 60, 120, 180]))  # 2*nv+ops statements must stay below finding F8's ~480
+    nv = draw(st.sampled_from([x for x in [1, 2, 3, 5, 8, 20, 60, 120, 180] if x <= max_nv]))  # 2*nv+ops statements must stay below finding F8's ~480
     level = draw(st.sampled_from([5, 6, 8, 8, 10]))
     vars_ = {}
     kinds = set()
